@@ -545,6 +545,31 @@ func init() {
 		"math.NaN": func(e *Engine, caller *frame, fn *ssa.Function, args []Value) Value {
 			return e.tt.F64Const(math.NaN())
 		},
+		"math.Modf": func(e *Engine, caller *frame, fn *ssa.Function, args []Value) Value {
+			x := args[0].(*Term)
+			tt := e.tt
+			ip := tt.FRound(x, RTZ)
+			frac := tt.Ite(tt.FIsInf(x), tt.F64Const(math.NaN()), tt.FSub(x, ip))
+			// Modf(-0.5) = (-0, -0.5); FSub gives +0 for x == ip: keep the sign of x as math.Modf does
+			frac = tt.Ite(tt.And(tt.FEq(frac, tt.F64Const(0)), tt.FLt(x, tt.F64Const(0))), tt.F64Const(math.Copysign(0, -1)), frac)
+			return Tuple{ip, frac}
+		},
+		"math.Float64bits": func(e *Engine, caller *frame, fn *ssa.Function, args []Value) Value {
+			x := args[0].(*Term)
+			if x.IsConst() {
+				return e.tt.BVConst(x.BV, 64)
+			}
+			e.unsupported("math.Float64bits of a symbolic value")
+			return nil
+		},
+		"math.Float64frombits": func(e *Engine, caller *frame, fn *ssa.Function, args []Value) Value {
+			x := args[0].(*Term)
+			if x.IsConst() {
+				return e.tt.F64Const(math.Float64frombits(x.BV))
+			}
+			e.unsupported("math.Float64frombits of a symbolic value")
+			return nil
+		},
 		"math.Mod": func(e *Engine, caller *frame, fn *ssa.Function, args []Value) Value {
 			x, y := args[0].(*Term), args[1].(*Term)
 			if x.IsConst() && y.IsConst() {
